@@ -299,6 +299,43 @@ pub fn hcalc_reducer_scrambled(s: &mut Src) -> R {
     Ok(())
 }
 
+// C08, clause "for tracked vectors" (BOUNDED, sampled): vectors added with add_vec are transported by every reduction step exactly as the
+// reported forward map transports them: after reduce_all (shallow, then deep) and after explicit reduce_at_spec steps with every pivot
+// strategy, vecs(i)[k] == trans(i).forward(v_k) in each degree, on scrambled complexes of arbitrary small shape (incl. m < n and m > n).
+pub fn hcalc_reducer_vecs(s: &mut Src) -> R {
+    use num_bigint::BigInt;
+    use yui_homology::utils::ChainReducer;
+    use yui_homology::GenericChainComplex;
+    use yui_matrix::sparse::pivot::{PivotCondition, PivotType};
+    use yui_matrix::sparse::SpVec;
+    let (a1, a2, _f, _kd, (n2, n1, n0)) = scrambled_complex(s)?;
+    let dims = [n2, n1, n0];
+    let mut vs: Vec<Vec<SpVec<BigInt>>> = vec![];
+    for i in 0..3 { let mut l = vec![]; for _ in 0..2 { let d: Vec<BigInt> = (0..dims[i]).map(|_| BigInt::from(s.small(-2, 2))).collect(); l.push(SpVec::from(d)); } vs.push(l); }
+    let mode = s.small(0, 6);
+    reach!();
+    let ds = [a1.clone(), a2.clone(), SpMat::<BigInt>::zero((0, n0))];
+    let c = GenericChainComplex::<BigInt>::generate(0..=2isize, 1, |i| ds[i as usize].clone());
+    let mut r = ChainReducer::from(&c, true);
+    for i in 0..3 { for v in vs[i].iter() { r.add_vec(i as isize, v.clone()); } }
+    if mode == 0 {
+        r.reduce_all(false); r.reduce_all(true);
+    } else {
+        let (pt, pc) = match mode { 1 => (PivotType::Rows, PivotCondition::One), 2 => (PivotType::Cols, PivotCondition::One), 3 => (PivotType::Rows, PivotCondition::AnyUnit),
+            4 => (PivotType::Cols, PivotCondition::AnyUnit), 5 => (PivotType::Rows, PivotCondition::Weight(2.0)), _ => (PivotType::Cols, PivotCondition::Weight(2.0)) };
+        for _ in 0..3 { for i in 0..3isize { r.reduce_at_spec(i, pt, pc); } }
+    }
+    for i in 0..3 {
+        let (t, ws) = (r.trans(i as isize).unwrap(), r.vecs(i as isize).unwrap());
+        ob!(ws.len() == vs[i].len(), "ChainReducer::vecs::count");
+        for (v, w) in vs[i].iter().zip(ws.iter()) {
+            ob!(w.dim() == t.tgt_dim(), "ChainReducer::vecs::dimension-is-the-reduced-rank");
+            ob!(w.to_dense() == t.forward(v).to_dense(), "ChainReducer::vecs::tracked-vector==forward(v)");
+        }
+    }
+    Ok(())
+}
+
 // C12 on arbitrary shapes (BOUNDED, sampled): Schur::from_partial_triangular over F_5 on m x n matrices (m, n <= 5) whose leading r x r
 // block (0 <= r <= 3) is triangular with non-zero diagonal: S = D - C A^-1 B (A^-1 B by substitution here), F_tgt M B_src = S, F B = I on both
 // sides, F_tgt M = [0 | S], M B_src = [0 ; S].  Includes r = 0, r = m, r = n and empty complements.
@@ -373,4 +410,4 @@ pub fn hcalc_triang_shapes(s: &mut Src) -> R {
     Ok(())
 }
 
-crate::harness_table!(HCALC: hcalc_small, hcalc_schur_small, hcalc_triang_small, hcalc_reducer_small, hcalc_decomp_small, hcalc_scrambled, hcalc_reducer_scrambled, hcalc_schur_shapes, hcalc_triang_shapes);
+crate::harness_table!(HCALC: hcalc_small, hcalc_schur_small, hcalc_triang_small, hcalc_reducer_small, hcalc_decomp_small, hcalc_scrambled, hcalc_reducer_scrambled, hcalc_schur_shapes, hcalc_triang_shapes, hcalc_reducer_vecs);
